@@ -221,10 +221,64 @@ def multi_share_server_cases(ctx):
                     ctx.trace(1)
 
 
+def newer_residue_publish_cases(ctx):
+    """Every kind of publish (overwrite, modify, MDMF in-place update, SDMF update) on a grid that holds a recoverable version
+    AND the residue of a newer, unrecoverable one: the new sequence number must exceed everything the survey saw."""
+    from core import grid as G
+    from twisted.internet import defer
+    from allmydata.mutable.publish import MutableData
+    kinds = ["update", "update", "overwrite", "modify"]
+    for i in range(ctx.n(4, 24)):
+        r = ctx.rng("residue", i)
+        seed = r.getrandbits(30)
+        k, N = r.choice([(2, 4), (3, 6), (2, 5)])
+        fmt = "mdmf" if i % 2 == 0 else r.choice(["sdmf", "mdmf"])
+        how = kinds[i % len(kinds)]
+        case = {"seed": seed, "servers": N, "k": k, "N": N, "format": fmt, "scenario": "newer-unrecoverable-residue", "publish": how}
+        with G.Grid(num_clients=1, num_servers=N, k=k, n=N, happy=1, seed=seed, timeout=180) as g:
+            node = g.run(g.create_mutable(b"one " * 40, version=fmt))
+            g.run(g.mutable_overwrite(node, b"two " * 40))
+            snap2 = {(sh.server, sh.shnum): g.read_share(sh) for sh in g.find_shares(node.get_uri())}
+            g.run(g.mutable_overwrite(node, b"three " * 30))
+            cur = {(sh.server, sh.shnum): sh for sh in g.find_shares(node.get_uri())}
+            keys = sorted(kk for kk in cur if kk in snap2)
+            r.shuffle(keys)
+            for kk in keys[:len(keys) - (k - 1)]:          # version 3 survives on k-1 shares only
+                g.write_share(cur[kk], snap2[kk])
+            pre = [(sh.server, sh.shnum) + share_version(g, sh) for sh in g.find_shares(node.get_uri())]
+            premax = max(p_[2] for p_ in pre)
+
+            @defer.inlineCallbacks
+            def publish():
+                if how == "overwrite":
+                    yield node.overwrite(MutableData(b"four " * 30))
+                elif how == "modify":
+                    yield node.modify(lambda old, sm, first: (old or b"") + b"+")
+                else:
+                    mv = yield node.get_best_mutable_version()
+                    yield mv.update(MutableData(b"UPD"), r.choice([0, 5, 17]))
+            out = g.run(publish(), outcome=True)
+            post = [(sh.server, sh.shnum) + share_version(g, sh) for sh in g.find_shares(node.get_uri())]
+            newvers = set((p_[2], p_[3]) for p_ in post) - set((p_[2], p_[3]) for p_ in pre)
+            ctx.case((seed, "residue", how, fmt), kind="grid-publish-over-newer-residue:" + how)
+            if out.status != "ok":
+                ctx.count("residue-publish-not-ok:%s:%s" % (how, out.error))
+                continue
+            for (sq, _root) in sorted(newvers):
+                if sq <= premax:
+                    ctx.oracle_fail("publish-seqnum-not-above-survey", "%s (%s) wrote seqnum %d although reachable shares already had seqnum %d (a newer version "
+                                    "that survives on %d share(s))" % (how, fmt, sq, premax, k - 1), case=case, expected="> %d" % premax, observed=sq)
+            if not newvers:
+                ctx.oracle_fail("publish-wrote-no-new-seqnum", "a successful %s left no share with a new version" % how, case=case)
+            else:
+                ctx.trace(1)
+
+
 def grid_histories(ctx):
     from core import grid as G
     from allmydata.mutable.publish import MutableData
     multi_share_server_cases(ctx)
+    newer_residue_publish_cases(ctx)
     n = ctx.n(6, 60)
     for i in range(n):
         r = ctx.rng("hist", i)
